@@ -496,7 +496,7 @@ pub fn replay_reply(v: &serde_json::Value) -> i32 {
 /// Every RPC of every listed step answered with every listed error code (C11: "no sequence of requests,
 /// blocks and node replies makes a request handler or the chain-processing loop abort").
 pub fn node_replies(run: &Run, tier: Tier) -> u64 {
-    let codes: Vec<i32> = if tier == Tier::Quick { vec![0, -1, -5, -22, -25, -26, -27, -28, -32603] } else { vec![0, -1, -3, -5, -8, -20, -22, -25, -26, -27, -28, -32600, -32601, -32603, -32700, 1, i32::MIN, i32::MAX] };
+    let codes: Vec<i32> = if tier == Tier::Quick { vec![0, -1, -22, -25, -26, -27, -28] } else { vec![0, -1, -3, -5, -8, -20, -22, -25, -26, -27, -28, -32600, -32601, -32603, -32700, 1, i32::MIN, i32::MAX] };
     let mut cases: Vec<ReplyCase> = Vec::new();
     for (name, cfg, prefix, faulty) in prefixes() {
         let mut w = World::new(cfg);
